@@ -10,26 +10,28 @@ Definition case := LC.case.
 Definition pkg_link (c : cfgT) (n : bytes) : bytes := pathjoin [c_exports c; c_exp_binpkg c; n].
 Definition gen_link (c : cfgT) (n : bytes) : bytes := pathjoin [c_exports c; c_exp_gen c; n].
 
-(* explicit export directives of x naming the packages / generated export *)
-Definition explicit_target (c : cfgT) (x : layer) (key : bytes) : option bytes :=
-  match filter (fun nm => beq (nm_mount nm) (bs "$$" ++ key)) (l_exports x) with
-  | nm :: _ => Some (pathjoin [l_path x; c_buildroot c; nm_source nm])
-  | [] => None
+(* the directories that explicit export directives of x name for the export entry [link]:
+   a directive counts when its (expanded) export target is that entry, however it is spelled
+   ($$package_export, $$file_export, or the path written out) *)
+Definition explicit_targets (c : cfgT) (x : layer) (link : bytes) : list bytes :=
+  match expand_config_exports c x with
+  | Some es => map x_source (filter (fun e => beq (x_mount e) link) es)
+  | None => []
   end.
 
-(* the entry must exist iff the layer has the directory or an explicit directive, and then be a
-   symlink to that directory *)
-Definition link_ok (f' : fsT) (link : bytes) (auto_dir : bytes) (explicit : option bytes) : bool :=
-  let wanted : option bytes :=
+(* the entry must exist iff the layer has the directory or an explicit directive names the
+   entry, and then be a symlink to that directory (to one of them if several directives name it) *)
+Definition link_ok (f' : fsT) (link : bytes) (auto_dir : bytes) (explicit : list bytes) : bool :=
+  let wanted : list bytes :=
     match explicit with
-    | Some t => Some t
-    | None => if exists_ f' auto_dir then Some auto_dir else None
+    | _ :: _ => explicit
+    | [] => if exists_ f' auto_dir then [auto_dir] else []
     end in
   match wanted, lstat f' link with
-  | Some t, Some (Link t') => beq t t'
-  | Some _, _ => false                 (* a foreign entry in the way: the mount must not report success *)
-  | None, Some (Link _) => false       (* a stale link to a directory that is not there *)
-  | None, _ => true                    (* nothing, or a foreign non-symlink entry that is left alone *)
+  | _ :: _, Some (Link t') => memb t' wanted
+  | _ :: _, _ => false                 (* a foreign entry in the way: the mount must not report success *)
+  | [], Some (Link _) => false         (* a stale link to a directory that is not there *)
+  | [], _ => true                      (* nothing, or a foreign non-symlink entry that is left alone *)
   end.
 
 Definition in_export_tree (c : cfgT) (p : bytes) : bool := under (c_exports c) p.
@@ -48,8 +50,8 @@ Definition step_spec (c : cfgT) (w : wobs) (v : sview) : bool :=
   match v_cmd v, v_res v with
   | CMount n, ROk =>
     forallb (fun x =>
-      link_ok f' (pkg_link c (l_name x)) (pathjoin [l_path x; c_binpkg c]) (explicit_target c x (bs "package_export"))
-      && link_ok f' (gen_link c (l_name x)) (pathjoin [l_path x; c_gen c]) (explicit_target c x (bs "file_export")))
+      link_ok f' (pkg_link c (l_name x)) (pathjoin [l_path x; c_binpkg c]) (explicit_targets c x (pkg_link c (l_name x)))
+      && link_ok f' (gen_link c (l_name x)) (pathjoin [l_path x; c_gen c]) (explicit_targets c x (gen_link c (l_name x))))
       (chain c f n)
   | CRename n _, ROk | CRemove n _, ROk =>
     (* no entry carrying the old name is left; entries of other layers are untouched *)
